@@ -397,3 +397,202 @@ def decompress_g2_all_words(rep, tier):
     core.explore(run, ctx_kwargs=dict(mul="uf", max_decisions=200), on_path=on_path, max_paths=3000)
     for k, v in seen.items():
         require(rep, v > 0, "reachability: at least one %s path" % k, None, rp)
+
+
+@obligation("C11", "modular_squareroot_in_FQ2_contract", bound="every square value Y^2 of F_q^2 (Y symbolic, both coefficients), each of the 8 possible outcomes of the 758-bit exponentiation (candidate = +-Y * w^(j/2), j in {0,2,4,6}); orderings of representatives explored as free forks")
+def msqrt_contract(rep, tier):
+    """modular_squareroot_in_FQ2(Y^2) returns Y or -Y (never None, never anything else)."""
+    pc = mod(PC)
+    o = mod(OPT)
+    fe = mod("py_ecc.fields.optimized_field_elements")
+    cst = mod("py_ecc.bls.constants")
+    q = _q()
+    FQ2 = o.FQ2
+    rep.encoded(pc.modular_squareroot_in_FQ2)
+    rep.stub("value ** ((q^2+7)//16) -> one of +-Y*w^(j/2) (w the primitive 8th root of unity used by the module): for a square value Y^2 the "
+             "exponentiation yields c with c^2 = Y^2 * w^j, j even  [Fermat/Euler in F_q^2; trusted]")
+    rp = {"kind": "c11_g2", "args": {}}
+    big = (cst.FQ2_ORDER + 8) // 16
+    roots = cst.EIGHTH_ROOTS_OF_UNITY
+    # ground: the table is the powers of one primitive 8th root
+    w = roots[1]
+    require(rep, all(roots[k] == w ** k for k in range(8)) and w ** 8 == FQ2.one() and w ** 4 != FQ2.one(),
+            "ground: EIGHTH_ROOTS_OF_UNITY[k] = w^k for a primitive 8th root w", None, rp)
+    real_pow = fe.FQP.__pow__
+    for j in (0, 2, 4, 6):
+        for sgn in (1, -1):
+            def fn(R, j=j, sgn=sgn):
+                R.order_fork = True
+                Y = FQ2([R.atom("y0"), R.atom("y1")])
+                value = Y * Y
+
+                def pow_stub(self, e):
+                    if e == big:
+                        return Y * roots[j // 2] * sgn
+                    return real_pow(self, e)
+                fe.FQP.__pow__ = pow_stub
+                try:
+                    with world.patched(fe, prime_field_inv=inv_stub_ring):
+                        r = pc.modular_squareroot_in_FQ2(value)
+                finally:
+                    fe.FQP.__pow__ = real_pow
+                return Y, r
+            for pth, R in ring.run_paths(fn, lambda: Ring(q, policy=lambda live: "generic")):
+                rep.paths += 1
+                path = lits_summary(R) + [str(R.order_lits)]
+                if pth.kind != "ret":
+                    rep.fail("modular_squareroot_in_FQ2 raised %r (j=%d, sign %d)" % (pth.value, j, sgn), rp, detail=str(path)[:300])
+                    continue
+                Y, r = pth.value
+                if r is None:
+                    rep.fail("modular_squareroot_in_FQ2(Y^2) returned None (candidate = %d*Y*w^%d)" % (sgn, j // 2), rp)
+                    continue
+                c0, c1 = r.coeffs
+                y0, y1 = Y.coeffs
+                plus = R.prove_equal(c0, y0) == "zero" and R.prove_equal(c1, y1) == "zero"
+                minus = R.prove_equal(c0, -y0) == "zero" and R.prove_equal(c1, -y1) == "zero"
+                require(rep, plus or minus, "modular_squareroot_in_FQ2(Y^2) is Y or -Y (candidate %d*Y*w^%d)" % (sgn, j // 2), path, rp)
+    rep.bound("the claim excludes the zero set of the branch polynomials met in the FQ2 inversion of Y^2 (generic path: Y^2 != 0 and its leading coefficient)")
+
+
+@obligation("C11", "compress_decompress_G2_all_points", bound="every affine point of E'(F_q^2) (x, y coefficients in [0,q), curve equation as hypothesis), QF_UFLIA; modular_squareroot_in_FQ2 replaced by its contract (returns y or -y)",
+            timeout=900)
+def roundtrip_g2(rep, tier):
+    pc = mod(PC)
+    o = mod(OPT)
+    q = _q()
+    FQ2 = o.FQ2
+    rep.encoded(pc.decompress_G2, pc.compress_G2)
+    rep.stub("modular_squareroot_in_FQ2(x^3 + b2) -> y or -y for the on-curve y (contract: obligation modular_squareroot_in_FQ2_contract)")
+    rp = {"kind": "c11_g2", "args": {}}
+    seen = {"ok": 0}
+    require(rep, (o.b2 ** ((q * q - 1) // 2)) != FQ2.one(), "ground: b2 = 4 + 4i is a non-square in F_q^2 (no twist point has x = 0)", None, rp)
+
+    def run(ctx):
+        xs = [SymZ.var(n, 0, q - 1) for n in ("xre", "xim")]
+        ys = [SymZ.var(n, 0, q - 1) for n in ("yre", "yim")]
+        x, y = FQ2(xs), FQ2(ys)
+        pt = (x, y, FQ2([1, 0]))
+        ctx.add_fact(z3.Or(ys[0].t != 0, ys[1].t != 0))      # no 2-torsion (ground: odd group order)
+        ctx.add_fact(z3.Or(xs[0].t != 0, xs[1].t != 0))      # no point with x = 0: b2 = 4+4i is a non-square (ground check below)
+        n0, n1 = (ys[0] * -1) % q, (ys[1] * -1) % q
+        for (u, v, uu, vv) in ((ys[0], ys[0], n0, n0), (ys[0], ys[1], n0, n1), (ys[1], ys[0], n1, n0), (ys[1], ys[1], n1, n1)):
+            ctx.add_fact(((uu * vv) % q).t == ((u * v) % q).t)
+        for yi, ni in ((ys[0], n0), (ys[1], n1)):              # -(-y) = y (pure arithmetic; stated to help theory combination)
+            ctx.add_fact((((ni * -1) % q).t) == yi.t)
+        if not o.is_on_curve(pt, o.b2):                        # hypothesis: the point is on the curve
+            return None
+
+        def stub(value):
+            pick = z3.Bool(ctx.fresh_name("root_sign"))
+            if SymBool(pick):
+                return FQ2([ys[0], ys[1]])
+            return FQ2([n0, n1])
+        z1, z2 = pc.compress_G2(pt)
+        with world.patched(pc, modular_squareroot_in_FQ2=stub):
+            try:
+                back = pc.decompress_G2((z1, z2))
+            except ValueError as e:
+                return xs, ys, (z1, z2), ("ValueError", str(e))
+        return xs, ys, (z1, z2), ("ok", back)
+
+    def on_path(pth):
+        rep.paths += 1
+        if pth.kind != "ret":
+            rep.fail("G2 round trip raised %r" % (pth.value,), rp)
+            return
+        if pth.value is None:
+            return
+        xs, ys, (z1, z2), (kind, val) = pth.value
+        if kind == "ValueError":
+            r, m = pth.ctx.satisfiable(timeout_ms=60000)
+            if r == "sat":
+                rep.fail("decompress_G2(compress_G2(P)) raises ValueError (%s) for a curve point P" % val[:60], rp,
+                         detail="x=(%s,%s) y=(%s,%s) decisions=%s feas_unknown=%s" % (tuple(m.eval(v.t, model_completion=True) for v in xs + ys) + (pth.decisions, pth.ctx.feas_unknown)))
+            elif r == "unknown":
+                rep.unknown("feasibility of a raising G2 round-trip path undecided (%s)" % val[:40])
+            return
+        seen["ok"] += 1
+        X, Y, Z = val
+        g = z3.And(*[SymZ.lift(a).t == b.t for a, b in zip(list(X.coeffs) + list(Y.coeffs), xs + ys)])
+        r, m = pth.ctx.prove(g, timeout_ms=60000)
+        require(rep, r, "decompress_G2(compress_G2(P)) == P", pth.decisions, rp)
+        zc = [int(c) for c in Z.coeffs]
+        require(rep, zc == [1, 0], "decoded point has z = 1", pth.decisions, rp)
+        r, m = pth.ctx.prove(z3.And(SymZ.lift(z1).t >= (1 << 383), SymZ.lift(z1).t < (1 << 384), SymZ.lift(z2).t >= 0, SymZ.lift(z2).t < q))
+        require(rep, r, "compress_G2 output words: z1 in [2^383, 2^384), z2 < q (96 bytes, no flag bit in z2)", pth.decisions, rp)
+    core.explore(run, ctx_kwargs=dict(mul="uf", max_decisions=200), on_path=on_path, max_paths=3000)
+    require(rep, seen["ok"] > 0, "reachability: a G2 round-trip path returns", None, rp)
+
+    # infinity in any representation
+    def run_inf(ctx):
+        cs = [SymZ.var(n, 0, q - 1) for n in ("a", "b", "c", "d")]
+        pt = (FQ2(cs[:2]), FQ2(cs[2:]), FQ2([0, 0]))
+        w = pc.compress_G2(pt)
+        return w, pc.decompress_G2(w)
+
+    def on_inf(pth):
+        rep.paths += 1
+        if pth.kind != "ret":
+            rep.fail("G2 infinity round trip raised %r" % (pth.value,), rp)
+            return
+        w, back = pth.value
+        require(rep, tuple(w) == ((1 << 383) + (1 << 382), 0) and [int(c) for c in back[2].coeffs] == [0, 0],
+                "every representative (x, y, 0) of G2 infinity compresses to (0b110||0, 0) and decodes to infinity", pth.decisions, rp)
+    core.explore(run_inf, ctx_kwargs=dict(mul="uf"), on_path=on_inf)
+
+
+@obligation("C11", "byte_helpers", bound="every compressed word in range (symbolic), 48/96-byte strings with symbolic content; octet-string conversion as the uninterpreted codec I2OSP_48/OS2IP with its per-call axioms")
+def byte_helpers(rep, tier):
+    g2p = mod("py_ecc.bls.g2_primitives")
+    h = mod("py_ecc.bls.hash")
+    from symx import sbytes
+    rep.encoded(g2p.G1_to_pubkey, g2p.pubkey_to_G1, g2p.G2_to_signature, g2p.signature_to_G2, h.i2osp, h.os2ip)
+    rp = {"kind": "c11_bytes", "args": {}}
+    rep.stub("int.to_bytes(48)/int.from_bytes on symbolic values -> uninterpreted I2OSP_48 / OS2IP with |I2OSP_48(x)| = 48, OS2IP(I2OSP_48(x)) = x, "
+             "0 <= OS2IP(b) < 256^|b|, I2OSP_48(OS2IP(b)) = b for |b| = 48 (RFC 8017 4.1/4.2)")
+
+    def run(ctx):
+        z = SymZ.var("z", 1 << 383, (1 << 384) - 1)
+        w1 = SymZ.var("w1", 1 << 383, (1 << 384) - 1)
+        w2 = SymZ.var("w2", 0, (1 << 381) - 1)
+        seen = {}
+
+        def dec1(zz):
+            seen["g1"] = zz
+            return "P1"
+
+        def dec2(p):
+            seen["g2"] = p
+            return "P2"
+        with world.patched(g2p, compress_G1=lambda pt: z, compress_G2=lambda pt: (w1, w2), decompress_G1=dec1, decompress_G2=dec2):
+            pk = g2p.G1_to_pubkey("pt")
+            sig = g2p.G2_to_signature("pt")
+            r1 = g2p.pubkey_to_G1(pk)
+            r2 = g2p.signature_to_G2(sig)
+        return z, w1, w2, pk, sig, seen, r1, r2
+
+    def on_path(pth):
+        rep.paths += 1
+        if pth.kind != "ret":
+            rep.fail("byte helpers raised %r" % (pth.value,), rp)
+            return
+        z, w1, w2, pk, sig, seen, r1, r2 = pth.value
+        r, m = pth.ctx.prove(z3.Length(pk.t) == 48)
+        require(rep, r, "G1_to_pubkey returns 48 bytes", pth.decisions, rp)
+        r, m = pth.ctx.prove(z3.Length(sig.t) == 96)
+        require(rep, r, "G2_to_signature returns 96 bytes", pth.decisions, rp)
+        r, m = pth.ctx.prove(SymZ.lift(seen["g1"]).t == z.t)
+        require(rep, r, "pubkey_to_G1(G1_to_pubkey(P)) hands decompress_G1 the compressed word", pth.decisions, rp)
+        a, b = seen["g2"]
+        r, m = pth.ctx.prove(z3.And(SymZ.lift(a).t == w1.t, SymZ.lift(b).t == w2.t), timeout_ms=60000)
+        require(rep, r, "signature_to_G2(G2_to_signature(P)) hands decompress_G2 the two words (first 48 bytes, last 48 bytes)", pth.decisions, rp)
+        require(rep, r1 == "P1" and r2 == "P2", "helpers return the decoder's result unchanged", pth.decisions, rp)
+    core.explore(run, on_path=on_path)
+
+    # concrete boundary validation of the codec model against the real int methods (translator validation)
+    ok = True
+    for x in (0, 1, 255, 256, (1 << 383), (1 << 384) - 1, _q()):
+        b = h.i2osp(x, 48)
+        ok &= (len(b) == 48 and h.os2ip(b) == x and b == x.to_bytes(48, "big"))
+    require(rep, ok, "ground: real i2osp/os2ip satisfy the codec axioms on boundary values", None, rp)
